@@ -210,7 +210,9 @@ def start (U : Units) : CState :=
   { unplanned := (List.range U.kind.length).filter (isRoot U) }
 
 /-- The sub-alphabet on which the property is proved: operations on ROOT units only, units of units
-are plan-all units executed with exactly their members, and no nested un-plan is ever rejected. -/
+are plan-all units executed with exactly their members; the undo steps of a rejected group MOVE are never rejected
+(`undo.all id`, a theorem of the engine: C07G); the member un-plans of a group UN-PLAN may be accepted or rejected in any
+pattern (as repaired, E16). -/
 def GoodOp (U : Units) : COp → Bool
   | .execStops u _ => isRoot U u && kindOf U u = .stops
   | .unplanStops u _ => isRoot U u && kindOf U u = .stops
@@ -218,7 +220,7 @@ def GoodOp (U : Units) : COp → Bool
     (match kindOf U p with
      | .all members => (ms.map (·.1)).Perm members |> decide
      | _ => false) && undo.all id
-  | .unplanUnits p bits => (match kindOf U p with | .all _ => true | _ => false) && bits.all id
+  | .unplanUnits p _ => (match kindOf U p with | .all _ => true | _ => false)
   | .vehicleUnplan _ _ => false
 
 end NR.Coll
